@@ -826,6 +826,9 @@ class Evaluator(object):
         tab = getattr(self, '_const_table', None)
         if tab is not None:
             d = tab(n)
+            if d is None and isinstance(n.ctx, ast.Load) and getattr(
+                    self, 'ctx', None) is not None:
+                d = self._const_scalar(n)
             if d is not None:
                 return self.ev(d, st)
         base = self.k(n.value, st)
@@ -1728,6 +1731,10 @@ def context_of(func):
     cls = getattr(f, '_parent', None)
     if not isinstance(cls, ast.ClassDef):
         cls = None
+    # a method inherited from a helper base class, read as the method of the
+    # subclass it was reviewed in (self.CONST / self.helper() resolve there)
+    if getattr(f, '_ctx_cls', None) is not None:
+        cls = f._ctx_cls
     mod = f
     while getattr(mod, '_parent', None) is not None:
         mod = mod._parent
@@ -2257,9 +2264,38 @@ class Summarizer(Evaluator):
         from .match import readonly_literal_table
         binds = [x for x in owner.body if isinstance(x, ast.Assign) and any(
             isinstance(t, ast.Name) and t.id == name for t in x.targets)]
+        if not binds and isinstance(owner, ast.ClassDef):
+            # inherited from a base class of the same module
+            byname = dict((c.name, c) for c in mod.body
+                          if isinstance(c, ast.ClassDef))
+            seen = {owner.name}
+            cur = owner
+            while not binds:
+                nxt = None
+                for b in cur.bases:
+                    if isinstance(b, ast.Name) and b.id in byname \
+                            and b.id not in seen:
+                        nxt = byname[b.id]
+                        break
+                if nxt is None:
+                    break
+                seen.add(nxt.name)
+                cur = nxt
+                binds = [x for x in cur.body if isinstance(x, ast.Assign)
+                         and any(isinstance(t, ast.Name) and t.id == name
+                                 for t in x.targets)]
+            if binds:
+                owner = cur
+        if binds and isinstance(owner, ast.ClassDef) and cls is not None \
+                and self._rebound_below(mod, cls, name):
+            # a subclass of the class this method is read for binds the
+            # name again: which value `self.NAME` has depends on the object
+            binds = []
         if len(binds) == 1 and isinstance(binds[0].value, kinds):
             val = binds[0].value
-            if isinstance(val, ast.Call):
+            if isinstance(val, ast.Constant):
+                n_entries = 1
+            elif isinstance(val, ast.Call):
                 inner = val.args[0] if len(val.args) == 1 and isinstance(
                     val.args[0], (ast.Tuple, ast.List, ast.Set)) else None
                 n_entries = len(inner.elts) if inner is not None else 0
@@ -2408,6 +2444,37 @@ class Summarizer(Evaluator):
                 res = binds[0].value
         self._tables[ck] = res
         return res
+
+    @staticmethod
+    def _rebound_below(mod, cls, name):
+        byname = dict((c.name, c) for c in mod.body
+                      if isinstance(c, ast.ClassDef))
+
+        def derives(c, seen=()):
+            for b in c.bases:
+                if isinstance(b, ast.Name) and b.id in byname \
+                        and b.id not in seen:
+                    if b.id == cls.name or derives(byname[b.id],
+                                                   seen + (b.id,)):
+                        return True
+            return False
+        for c in byname.values():
+            if c is not cls and derives(c) and any(
+                    isinstance(x, ast.Assign) and any(
+                        isinstance(t, ast.Name) and t.id == name
+                        for t in x.targets) for x in c.body):
+                return True
+        return False
+
+    def _const_scalar(self, node):
+        """`self.NAME` / `cls.NAME` where NAME is bound once at class level
+        (of this class or a base class in the module) to a literal constant,
+        nothing stores an attribute of that name, and no subclass binds it
+        again: that constant."""
+        if not (isinstance(node, ast.Attribute) and isinstance(
+                node.value, ast.Name) and node.value.id in ('self', 'cls')):
+            return None
+        return self._const_binding(node, (ast.Constant,))
 
     def _const_table(self, node):
         """A read-only literal dict with constant keys (see
